@@ -4,7 +4,7 @@ CONSTANTS
   Surrounds = {{}, {3}, {6}, {9}, {12}, {3, 6}, {3, 9}, {3, 12}, {6, 9}, {6, 12}, {9, 12}, {3, 6, 9}, {3, 6, 12}, {3, 9, 12}, {6, 9, 12}, {3, 6, 9, 12}}
   DocHi = {TRUE, FALSE}
   DocSurs = {{}, {3, 9}, {6, 12}, {3, 6, 9, 12}}
-  FullDocs = TRUE
+  DocOther = {"none", "all", "mixed"}
   E2EAlgs = {"rc4_40", "rc4_40_v2", "rc4_40_r3", "rc4_128_r3", "rc4_128", "aes_128", "aes_256", "aes_256_r6"}
   ApiAlgs = {"rc4_40", "rc4_40_v2", "rc4_40_r3", "rc4_128_r3", "rc4_128", "aes_128", "aes_256", "aes_256_r6"}
   ApiRels = {{}, {4}, {5}, {10}, {11}, {4, 5}, {4, 10}, {4, 11}, {5, 10}, {5, 11}, {10, 11}, {4, 5, 10}, {4, 5, 11}, {4, 10, 11}, {5, 10, 11}, {4, 5, 10, 11}}
